@@ -1218,6 +1218,12 @@ class Interp:
                     o.items = [run.ite(j == k, val, o.items[k]) for k in range(n)]
                     return
             if isinstance(o, HSeq):
+                if isinstance(idx, Ref):
+                    # a container used as index (numpy fancy indexing): left to the model hooks
+                    m = self.ctx.models.setitem_hook(self, base, idx, val, node)
+                    if m is not NotImplemented:
+                        return
+                    raise Unsupported("subscript store with a container index", node)
                 j = self.norm_index(idx, o.hi - o.lo, node)
                 o.arr = z3.Store(o.arr, o.lo + j, self.elem_term(val, o.elem))
                 return
@@ -1594,7 +1600,8 @@ class Interp:
                     first = st
                 if first is not None and spec["to"] in names:
                     last = st
-                    break
+                    if not spec.get("to_last"):
+                        break
             if first is None or last is None:
                 raise Unsupported("abstracted block %s..%s not found in %s" % (spec["from"], spec["to"], fr.fi.qualname))
             i0, i1 = stmts.index(first), stmts.index(last)
@@ -1617,6 +1624,9 @@ class Interp:
                 todo.extend(c for c in ast.iter_child_nodes(n) if not isinstance(c, (ast.FunctionDef, ast.Lambda)))
             for n in ast.walk(st):
                 if isinstance(n, (ast.Attribute, ast.Subscript)) and isinstance(n.ctx, ast.Store):
+                    if isinstance(n, ast.Attribute) and isinstance(n.value, ast.Name) and n.value.id == "self" and \
+                            n.attr in b.get("havoc_fields", {}):
+                        continue        # a field the contract declares as written by the block: havocked below
                     raise Unsupported("abstracted block writes to an object", st)
         rel = getattr(run, "rel_share", None)
         key = (fr.fi.qualname, "block", b["from"], b["to"])
@@ -1645,6 +1655,10 @@ class Interp:
                     if isinstance(v0, Ref):
                         raise Unsupported("abstracted block result on the heap")
                 rel["store"][key] = vals
+        for fld, ty in b.get("havoc_fields", {}).items():
+            selfv = fr.env.get("self")
+            run.obj(selfv).fields[fld] = self.ctx.reg.make_symbolic(self, ty, "block!self.%s" % fld)
+            run.writes.add((run.obj(selfv).cls, fld))
         run.assumed.append("abstracted statements of %s (from the assignment of %s to that of %s, lines %d-%d): not verified, "
                            "the variables they assign are arbitrary afterwards%s" % (
                                fr.fi.qualname, b["from"], b["to"], b["first"].lineno, getattr(b["last"], "end_lineno", b["last"].lineno),
